@@ -659,4 +659,426 @@ theorem sum_map_affine (f : α → α) (c d : α) : ∀ l : List α,
     simp only [List.map_cons, List.sum_cons, sum_map_affine f c d t, List.length_cons]
     push_cast; ring
 
+/-! ### invariance: order of members, order of forecasts -/
+
+theorem sort_perm_eq {sort : List α → List α} (hsort : SortOK sort) {a b : List α} (h : a.Perm b) :
+    sort a = sort b := by
+  apply List.Perm.eq_of_pairwise (le := fun x y : α => x ≤ y)
+    (fun x y _ _ hxy hyx => le_antisymm hxy hyx) (hsort a).1 (hsort b).1
+  exact ((hsort a).2.trans h).trans (hsort b).2.symm
+
+theorem pureLoop_congr (sort : List α → List α) (w : α) :
+    ∀ (F F' : List (α × List α)) (prev : List α) (s : Acc α),
+      (F.map fun p => (p.1, sort p.2)) = (F'.map fun p => (p.1, sort p.2)) →
+      pureLoop sort w prev F s = pureLoop sort w prev F' s
+  | [], [], _, _, _ => rfl
+  | [], _ :: _, _, _, h => by simp at h
+  | _ :: _, [], _, _, h => by simp at h
+  | (y, row) :: F, (y', row') :: F', prev, s, h => by
+    simp only [List.map_cons, List.cons.injEq, Prod.mk.injEq] at h
+    obtain ⟨⟨rfl, hr⟩, ht⟩ := h
+    simp only [pureLoop, hr]
+    exact pureLoop_congr sort w F F' _ _ ht
+
+theorem rows_of_forall₂_perm {m : ℕ} {ens ens' : List (List α)} (hp : List.Forall₂ List.Perm ens' ens) :
+    (∀ r ∈ ens, r.length = m) → ∀ r ∈ ens', r.length = m := by
+  induction hp with
+  | nil => intro _ r hr; simp at hr
+  | cons hab _ ih =>
+    intro h r hr
+    rcases List.mem_cons.mp hr with rfl | hr
+    · rw [hab.length_eq]; exact h _ List.mem_cons_self
+    · exact ih (fun r hr => h r (List.mem_cons_of_mem _ hr)) r hr
+
+theorem shape_of_forall₂_perm {m : ℕ} {obs : List α} {ens ens' : List (List α)} (h : Shape m obs ens)
+    (hp : List.Forall₂ List.Perm ens' ens) : Shape m obs ens' :=
+  ⟨by rw [hp.length_eq, h.len], h.m_pos, h.n_pos, rows_of_forall₂_perm hp h.rows⟩
+
+theorem map_sort_of_forall₂_perm {sort : List α → List α} (hsort : SortOK sort) {ens ens' : List (List α)}
+    (hp : List.Forall₂ List.Perm ens' ens) : ens'.map sort = ens.map sort := by
+  induction hp with
+  | nil => rfl
+  | cons hab _ ih => simp [sort_perm_eq hsort hab, ih]
+
+theorem finalAcc_member_perm {sort : List α → List α} (hsort : SortOK sort) (m : ℕ) (obs : List α)
+    {ens ens' : List (List α)} (hp : List.Forall₂ List.Perm ens' ens) :
+    finalAcc sort m obs ens' = finalAcc sort m obs ens := by
+  unfold finalAcc
+  apply pureLoop_congr
+  have h1 : ∀ e : List (List α), ((obs.zip e).map fun p => (p.1, sort p.2)) = obs.zip (e.map sort) := by
+    intro e; rw [List.zip_map_right]; rfl
+  rw [h1, h1, map_sort_of_forall₂_perm hsort hp]
+
+/-- the state without the uncertainty accumulator -/
+def CoreEq (s s' : Acc α) : Prop :=
+  s.ab = s'.ab ∧ s.b0 = s'.b0 ∧ s.aN = s'.aN ∧ s.o0 = s'.o0 ∧ s.oN = s'.oN
+
+theorem acc_ext {s s' : Acc α} (h : CoreEq s s') (hu : s.unc = s'.unc) : s = s' := by
+  obtain ⟨h1, h2, h3, h4, h5⟩ := h
+  cases s; cases s'; simp_all
+
+/-- one forecast acting on everything but the uncertainty -/
+def coreStep (sort : List α → List α) (w : α) (s : Acc α) (p : α × List α) : Acc α :=
+  stepE w [] p.1 (sort p.2) s
+
+theorem pureLoop_core (sort : List α → List α) (w : α) :
+    ∀ (F : List (α × List α)) (prev : List α) (s s' : Acc α), CoreEq s s' →
+      CoreEq (pureLoop sort w prev F s) (F.foldl (coreStep sort w) s')
+  | [], _, _, _, h => h
+  | (y, row) :: F, prev, s, s', h => by
+    simp only [pureLoop, List.foldl_cons]
+    apply pureLoop_core sort w F
+    obtain ⟨h1, h2, h3, h4, h5⟩ := h
+    simp only [CoreEq, coreStep, stepE, step, h1, h2, h3, h4, h5, and_self]
+
+theorem binStep_comm (w y y' l r l' r' : α) (p : α × α) (h : l ≤ r) (h' : l' ≤ r') :
+    binStep w y l r (binStep w y' l' r' p) = binStep w y' l' r' (binStep w y l r p) := by
+  rw [binStep_eq _ _ _ _ _ h, binStep_eq _ _ _ _ _ h', binStep_eq _ _ _ _ _ h', binStep_eq _ _ _ _ _ h]
+  ext <;> simp only <;> ring
+
+theorem binsStep_comm (w y y' : α) : ∀ (ab : List (α × α)) (e e' : List α),
+    e.Pairwise (· ≤ ·) → e'.Pairwise (· ≤ ·) →
+    binsStep w y e (binsStep w y' e' ab) = binsStep w y' e' (binsStep w y e ab)
+  | [], e, e', _, _ => by
+    have : ∀ (z : α) (e : List α), binsStep w z e ([] : List (α × α)) = [] := by
+      intro z e; rcases e with _ | ⟨a, _ | ⟨b, t⟩⟩ <;> simp [binsStep]
+    simp [this]
+  | p :: rest, [], e', _, _ => by simp [binsStep]
+  | p :: rest, [_], e', _, _ => by simp [binsStep]
+  | p :: rest, _ :: _ :: _, [], _, _ => by simp [binsStep]
+  | p :: rest, _ :: _ :: _, [_], _, _ => by simp [binsStep]
+  | p :: rest, l :: r :: es, l' :: r' :: es', hs, hs' => by
+    have hlr : l ≤ r := List.rel_of_pairwise_cons hs List.mem_cons_self
+    have hlr' : l' ≤ r' := List.rel_of_pairwise_cons hs' List.mem_cons_self
+    simp only [binsStep]
+    rw [binStep_comm w y y' l r l' r' p hlr hlr', binsStep_comm w y y' rest (r :: es) (r' :: es') hs.tail hs'.tail]
+
+theorem coreStep_comm {sort : List α → List α} (hsort : SortOK sort) (w : α) (z : Acc α) (p q : α × List α) :
+    coreStep sort w (coreStep sort w z p) q = coreStep sort w (coreStep sort w z q) p := by
+  apply acc_ext
+  · refine ⟨?_, ?_, ?_, ?_, ?_⟩
+    · simp only [coreStep, stepE, step]
+      exact binsStep_comm w q.1 p.1 z.ab _ _ (hsort q.2).1 (hsort p.2).1
+    all_goals
+      simp only [coreStep, stepE, step]
+      split_ifs <;> ring
+  · simp [coreStep, stepE, step, uncStep]
+
+theorem dsum_perm {l l' : List α} (h : l.Perm l') : dsum l = dsum l' := by
+  unfold dsum
+  have h2 : (fun a => (l.map fun b => |b - a|).sum) = fun a => (l'.map fun b => |b - a|).sum := by
+    funext a; exact (h.map _).sum_eq
+  rw [h2]; exact (h.map _).sum_eq
+
+theorem finalAcc_forecast_perm {sort : List α → List α} (hsort : SortOK sort) {m : ℕ} {obs obs' : List α}
+    {ens ens' : List (List α)} (h : Shape m obs ens) (h' : Shape m obs' ens')
+    (hp : (obs'.zip ens').Perm (obs.zip ens)) :
+    finalAcc sort m obs' ens' = finalAcc sort m obs ens := by
+  have hlen : obs'.length = obs.length := by
+    have := hp.length_eq
+    rw [List.length_zip, List.length_zip, h.len, h'.len, Nat.min_self, Nat.min_self] at this
+    exact this
+  have hcore : ∀ (o : List α) (e : List (List α)),
+      CoreEq (finalAcc sort m o e) ((o.zip e).foldl (coreStep sort (1 / (o.length : α))) (init m)) := by
+    intro o e
+    exact pureLoop_core sort _ _ _ _ _ ⟨rfl, rfl, rfl, rfl, rfl⟩
+  have hfold : (obs'.zip ens').foldl (coreStep sort (1 / (obs'.length : α))) (init m)
+      = (obs.zip ens).foldl (coreStep sort (1 / (obs.length : α))) (init m) := by
+    rw [hlen]
+    exact hp.foldl_eq' (fun x _ y _ z => coreStep_comm hsort _ z x y) _
+  apply acc_ext
+  · obtain ⟨a1, a2, a3, a4, a5⟩ := hcore obs' ens'
+    obtain ⟨b1, b2, b3, b4, b5⟩ := hcore obs ens
+    rw [hfold] at a1 a2 a3 a4 a5
+    exact ⟨a1.trans b1.symm, a2.trans b2.symm, a3.trans b3.symm, a4.trans b4.symm, a5.trans b5.symm⟩
+  · have u' := (finalAcc_inv hsort h').unc
+    have u := (finalAcc_inv hsort h).unc
+    rw [hlen, dsum_perm (hp.map Prod.fst)] at u'
+    have : 2 * (finalAcc sort m obs' ens').unc = 2 * (finalAcc sort m obs ens).unc := by rw [u', u]
+    linarith
+
+/-! ### invariance: common shift -/
+
+theorem sort_map_of_mono {sort : List α → List α} (hsort : SortOK sort) (f : α → α)
+    (hf : ∀ a b, a ≤ b → f a ≤ f b) (row : List α) : sort (row.map f) = (sort row).map f := by
+  apply List.Perm.eq_of_pairwise (le := fun x y : α => x ≤ y)
+    (fun x y _ _ hxy hyx => le_antisymm hxy hyx) (hsort _).1
+  · exact List.Pairwise.map f hf (hsort row).1
+  · exact (hsort _).2.trans ((hsort row).2.map f).symm
+
+theorem ext_map (f : α → α) {e : List α} (hne : e ≠ []) (j : ℕ) : ext (e.map f) j = f (ext e j) := by
+  have hpos : 0 < e.length := List.length_pos_iff.mpr hne
+  unfold ext
+  rw [List.length_map]
+  have hlt : min j (e.length - 1) < e.length := by omega
+  rw [List.getD_eq_getElem?_getD, List.getD_eq_getElem?_getD, List.getElem?_map,
+    List.getElem?_eq_getElem hlt]
+  rfl
+
+theorem binStep_shift (w y l r c : α) (p : α × α) :
+    binStep w (y + c) (l + c) (r + c) p = binStep w y l r p := by
+  unfold binStep
+  simp only [add_le_add_iff_right, add_lt_add_iff_right, add_sub_add_right_eq_sub]
+
+theorem binsStep_shift (w y c : α) : ∀ (e : List α) (ab : List (α × α)),
+    binsStep w (y + c) (e.map (· + c)) ab = binsStep w y e ab
+  | [], ab => by simp [binsStep]
+  | [_], ab => by simp [binsStep]
+  | _ :: _ :: _, [] => by simp [binsStep]
+  | l :: r :: es, p :: rest => by
+    have ih := binsStep_shift w y c (r :: es) rest
+    simp only [List.map_cons] at ih ⊢
+    simp only [binsStep, binStep_shift, ih]
+
+theorem uncStep_shift (w y c : α) (prev : List α) (u : α) :
+    uncStep w (y + c) (prev.map (· + c)) u = uncStep w y prev u := by
+  rw [uncStep_eq, uncStep_eq, List.map_map]
+  congr 3
+  apply List.map_congr_left
+  intro k _
+  simp only [Function.comp, add_sub_add_right_eq_sub]
+
+theorem stepE_shift (w c : α) (prev : List α) (y : α) {e : List α} (hne : e ≠ []) (s : Acc α) :
+    stepE w (prev.map (· + c)) (y + c) (e.map (· + c)) s = stepE w prev y e s := by
+  unfold stepE step
+  simp only [List.length_map, ext_map (· + c) hne, binsStep_shift, uncStep_shift, add_lt_add_iff_right,
+    add_le_add_iff_right, add_sub_add_right_eq_sub]
+
+theorem pureLoop_shift {sort : List α → List α} (hsort : SortOK sort) (w c : α) :
+    ∀ (F : List (α × List α)) (prev : List α) (s : Acc α), (∀ p ∈ F, p.2 ≠ []) →
+      pureLoop sort w (prev.map (· + c)) (F.map fun p => (p.1 + c, p.2.map (· + c))) s
+        = pureLoop sort w prev F s
+  | [], _, _, _ => rfl
+  | (y, row) :: F, prev, s, h => by
+    have hrow : row ≠ [] := h (y, row) List.mem_cons_self
+    have hne : sort row ≠ [] := by
+      intro h0
+      have := (hsort row).2.length_eq
+      rw [h0] at this
+      exact hrow (List.eq_nil_of_length_eq_zero this.symm)
+    simp only [List.map_cons, pureLoop]
+    rw [sort_map_of_mono hsort (· + c) (fun a b hab => by simpa using hab) row, stepE_shift w c prev y hne s]
+    have := pureLoop_shift hsort w c F (prev ++ [y]) (stepE w prev y (sort row) s)
+      (fun p hp => h p (List.mem_cons_of_mem _ hp))
+    simpa using this
+
+theorem shape_map (f : α → α) {m : ℕ} {obs : List α} {ens : List (List α)} (h : Shape m obs ens) :
+    Shape m (obs.map f) (ens.map fun r => r.map f) := by
+  refine ⟨by simp [h.len], h.m_pos, by simpa using h.n_pos, ?_⟩
+  intro r hr
+  obtain ⟨r', hr', rfl⟩ := List.mem_map.mp hr
+  simpa using h.rows r' hr'
+
+theorem rows_ne_nil {m : ℕ} {obs : List α} {ens : List (List α)} (h : Shape m obs ens) :
+    ∀ p ∈ obs.zip ens, p.2 ≠ [] := by
+  intro p hp h0
+  have h1 := h.rows p.2 (List.of_mem_zip hp).2
+  have h2 := h.m_pos
+  rw [h0] at h1
+  simp at h1; omega
+
+theorem finalAcc_shift {sort : List α → List α} (hsort : SortOK sort) {m : ℕ} {obs : List α}
+    {ens : List (List α)} (h : Shape m obs ens) (c : α) :
+    finalAcc sort m (obs.map (· + c)) (ens.map fun r => r.map (· + c)) = finalAcc sort m obs ens := by
+  unfold finalAcc
+  have hz : (obs.map (· + c)).zip (ens.map fun r => r.map (· + c))
+      = (obs.zip ens).map fun p => (p.1 + c, p.2.map (· + c)) := by
+    rw [List.zip_map]; rfl
+  rw [hz, List.length_map]
+  have := pureLoop_shift hsort (1 / (obs.length : α)) c (obs.zip ens) [] (init m) (rows_ne_nil h)
+  simpa using this
+
+/-! ### invariance: positive scale factor -/
+
+def scaleRow (c : α) (r : Row α) : Row α :=
+  { p := r.p, a := c * r.a, b := c * r.b, g := c * r.g, o := r.o
+    r := r.r.map (c * ·), c := r.c.map (c * ·) }
+
+/-- every output that carries the unit of the data is multiplied by `c`; frequencies `p`, `o` are unchanged -/
+def scaleResult (c : α) (r : Result α) : Result α :=
+  { crps := c * r.crps, reli := r.reli.map (c * ·), resol := r.resol.map (c * ·), unc := c * r.unc
+    pot := r.pot.map (c * ·), table := r.table.map (scaleRow c) }
+
+def scaleAcc (c : α) (s : Acc α) : Acc α :=
+  { ab := s.ab.map fun p => (c * p.1, c * p.2), b0 := c * s.b0, aN := c * s.aN, o0 := s.o0, oN := s.oN
+    unc := c * s.unc }
+
+def scaleTot (c : α) (t : Tot α) : Tot α :=
+  { crps := c * t.crps, reli := t.reli.map (c * ·), pot := t.pot.map (c * ·) }
+
+theorem mul_le_mul_iff_pos {c : α} (hc : 0 < c) (a b : α) : c * a ≤ c * b ↔ a ≤ b :=
+  ⟨fun h => le_of_mul_le_mul_left h hc, fun h => mul_le_mul_of_nonneg_left h hc.le⟩
+
+theorem mul_lt_mul_iff_pos {c : α} (hc : 0 < c) (a b : α) : c * a < c * b ↔ a < b :=
+  ⟨fun h => lt_of_mul_lt_mul_left h hc.le, fun h => mul_lt_mul_of_pos_left h hc⟩
+
+theorem binStep_scale (w y l r c : α) (hc : 0 < c) (p : α × α) :
+    binStep w (c * y) (c * l) (c * r) (c * p.1, c * p.2)
+      = (c * (binStep w y l r p).1, c * (binStep w y l r p).2) := by
+  unfold binStep
+  simp only [mul_le_mul_iff_pos hc, mul_lt_mul_iff_pos hc]
+  split_ifs <;> (apply Prod.ext <;> simp only <;> ring)
+
+theorem binsStep_scale (w y c : α) (hc : 0 < c) : ∀ (e : List α) (ab : List (α × α)),
+    binsStep w (c * y) (e.map (c * ·)) (ab.map fun p => (c * p.1, c * p.2))
+      = (binsStep w y e ab).map fun p => (c * p.1, c * p.2)
+  | [], ab => by simp [binsStep]
+  | [_], ab => by simp [binsStep]
+  | _ :: _ :: _, [] => by simp [binsStep]
+  | l :: r :: es, p :: rest => by
+    have ih := binsStep_scale w y c hc (r :: es) rest
+    simp only [List.map_cons] at ih ⊢
+    simp only [binsStep, List.map_cons, binStep_scale w y l r c hc p, ih]
+
+theorem uncStep_scale (w y c : α) (hc : 0 < c) (prev : List α) (u : α) :
+    uncStep w (c * y) (prev.map (c * ·)) (c * u) = c * uncStep w y prev u := by
+  rw [uncStep_eq, uncStep_eq, List.map_map]
+  have : (prev.map ((fun k => |k - c * y|) ∘ fun x => c * x)) = prev.map fun k => c * |k - y| := by
+    apply List.map_congr_left
+    intro k _
+    simp only [Function.comp]
+    rw [← mul_sub, abs_mul, abs_of_pos hc]
+  rw [this, List.sum_map_mul_left]
+  ring
+
+theorem stepE_scale (w c : α) (hc : 0 < c) (prev : List α) (y : α) {e : List α} (hne : e ≠ []) (s : Acc α) :
+    stepE w (prev.map (c * ·)) (c * y) (e.map (c * ·)) (scaleAcc c s) = scaleAcc c (stepE w prev y e s) := by
+  unfold stepE step scaleAcc
+  simp only [List.length_map, ext_map (c * ·) hne, binsStep_scale w y c hc, uncStep_scale w y c hc,
+    mul_le_mul_iff_pos hc, mul_lt_mul_iff_pos hc]
+  congr 1
+  · split_ifs <;> ring
+  · split_ifs <;> ring
+
+theorem pureLoop_scale {sort : List α → List α} (hsort : SortOK sort) (w c : α) (hc : 0 < c) :
+    ∀ (F : List (α × List α)) (prev : List α) (s : Acc α), (∀ p ∈ F, p.2 ≠ []) →
+      pureLoop sort w (prev.map (c * ·)) (F.map fun p => (c * p.1, p.2.map (c * ·))) (scaleAcc c s)
+        = scaleAcc c (pureLoop sort w prev F s)
+  | [], _, _, _ => rfl
+  | (y, row) :: F, prev, s, h => by
+    have hrow : row ≠ [] := h (y, row) List.mem_cons_self
+    have hne : sort row ≠ [] := by
+      intro h0
+      have := (hsort row).2.length_eq
+      rw [h0] at this
+      exact hrow (List.eq_nil_of_length_eq_zero this.symm)
+    simp only [List.map_cons, pureLoop]
+    rw [sort_map_of_mono hsort (c * ·) (fun a b hab => mul_le_mul_of_nonneg_left hab hc.le) row,
+      stepE_scale w c hc prev y hne s]
+    have := pureLoop_scale hsort w c hc F (prev ++ [y]) (stepE w prev y (sort row) s)
+      (fun p hp => h p (List.mem_cons_of_mem _ hp))
+    simpa using this
+
+theorem scaleAcc_init (c : α) (m : ℕ) : scaleAcc c (init m : Acc α) = init m := by
+  simp [scaleAcc, init]
+
+theorem finalAcc_scale {sort : List α → List α} (hsort : SortOK sort) {m : ℕ} {obs : List α}
+    {ens : List (List α)} (h : Shape m obs ens) (c : α) (hc : 0 < c) :
+    finalAcc sort m (obs.map (c * ·)) (ens.map fun r => r.map (c * ·)) = scaleAcc c (finalAcc sort m obs ens) := by
+  unfold finalAcc
+  have hz : (obs.map (c * ·)).zip (ens.map fun r => r.map (c * ·))
+      = (obs.zip ens).map fun p => (c * p.1, p.2.map (c * ·)) := by
+    rw [List.zip_map]; rfl
+  rw [hz, List.length_map]
+  have := pureLoop_scale hsort (1 / (obs.length : α)) c hc (obs.zip ens) [] (init m) (rows_ne_nil h)
+  rw [scaleAcc_init] at this
+  simpa using this
+
+theorem mkRow_scale (c p a b g : α) (o : Option α) :
+    mkRow p (c * a) (c * b) (c * g) o = scaleRow c (mkRow p a b g o) := by
+  cases o <;> simp [mkRow, scaleRow, mul_assoc]
+
+theorem mids_scale (c : α) (hc : c ≠ 0) (m : ℕ) : ∀ (ab : List (α × α)) (k : ℕ),
+    mids m k (ab.map fun p => (c * p.1, c * p.2)) = (mids m k ab).map (scaleRow c)
+  | [], k => by simp [mids]
+  | p :: t, k => by
+    simp only [List.map_cons, mids, mids_scale c hc m t (k + 1)]
+    congr 1
+    unfold rowMid
+    simp only
+    rw [← mul_add, ← mkRow_scale]
+    congr 1
+    by_cases hg : p.1 + p.2 = 0
+    · simp [hg]
+    · simp [hg, hc, mul_div_mul_left _ _ hc]
+
+theorem accRow_scale (c : α) (hc : 0 < c) (t : Tot α) (r : Row α) :
+    accRow (scaleTot c t) (scaleRow c r) = scaleTot c (accRow t r) := by
+  unfold accRow
+  have hg : (0 < (scaleRow c r).g) ↔ 0 < r.g := by
+    simp only [scaleRow]
+    exact ⟨fun h => by
+        by_contra hn
+        exact absurd h (not_lt.mpr (mul_nonpos_of_nonneg_of_nonpos hc.le (not_lt.mp hn))),
+      fun h => mul_pos hc h⟩
+  simp only [hg]
+  split_ifs
+  · simp only [scaleTot, scaleRow]
+    congr 1
+    · ring
+    · cases t.reli <;> cases r.r <;> simp [mul_add]
+    · cases t.pot <;> cases r.c <;> simp [mul_add]
+  · simp only [scaleTot, scaleRow]
+    congr 1
+    ring
+
+theorem foldl_accRow_scale (c : α) (hc : 0 < c) : ∀ (rows : List (Row α)) (t : Tot α),
+    (rows.map (scaleRow c)).foldl accRow (scaleTot c t) = scaleTot c (rows.foldl accRow t)
+  | [], t => rfl
+  | r :: rows, t => by
+    simp only [List.map_cons, List.foldl_cons, accRow_scale c hc, foldl_accRow_scale c hc rows]
+
+theorem table_scale (c : α) (hc : c ≠ 0) (m : ℕ) (s : Acc α) :
+    table m (scaleAcc c s) = (table m s).map (scaleRow c) := by
+  unfold table
+  simp only [List.map_cons, List.map_append, List.map_nil]
+  have h0 : row0 m (scaleAcc c s) = scaleRow c (row0 m s) := by
+    unfold row0
+    have : (0 : α) = c * 0 := by ring
+    simp only [scaleAcc]
+    rw [← mkRow_scale, ← this]
+    congr 1
+    by_cases h : (s.o0 != 0) = true <;> simp [h, mul_div_assoc]
+  have hN : rowN m (scaleAcc c s) = scaleRow c (rowN m s) := by
+    unfold rowN
+    have : (0 : α) = c * 0 := by ring
+    simp only [scaleAcc]
+    rw [← mkRow_scale, ← this]
+    congr 1
+    by_cases h : (s.oN != 1) = true <;> simp [h, mul_div_assoc]
+  rw [h0, hN]
+  simp only [scaleAcc, mids_scale c hc]
+
+theorem finish_scale (c : α) (hc : 0 < c) (m : ℕ) (s : Acc α) :
+    finish m (scaleAcc c s) = scaleResult c (finish m s) := by
+  unfold finish
+  simp only [table_scale c (ne_of_gt hc)]
+  have hs : scaleTot c ({ crps := 0, reli := some 0, pot := some 0 } : Tot α)
+      = { crps := 0, reli := some 0, pot := some 0 } := by simp [scaleTot]
+  have hf := foldl_accRow_scale c hc (table m s) ({ crps := 0, reli := some 0, pot := some 0 } : Tot α)
+  rw [hs] at hf
+  rw [hf]
+  simp only [scaleResult, scaleTot, scaleAcc]
+  congr 1
+  cases ((table m s).foldl accRow ({ crps := 0, reli := some 0, pot := some 0 } : Tot α)).pot <;> simp [mul_sub]
+
+/-! ### the Python wrapper's filtering -/
+
+theorem optAll_map_some {β : Type} : ∀ l : List β, optAll (l.map some) = some l
+  | [] => rfl
+  | a :: t => by simp [optAll, optAll_map_some t]
+
+theorem wrapper_kept_of_finite {m : ℕ} {ys : List α} {rows : List (List α)} (h : Shape m ys rows) :
+    ((ys.map some).zip (rows.map fun r => r.map some)).filter keep
+      = (ys.zip rows).map fun p => (some p.1, p.2.map some) := by
+  have hz : (ys.map some).zip (rows.map fun r => r.map some)
+      = (ys.zip rows).map fun p => (some p.1, p.2.map some) := by
+    rw [List.zip_map]; rfl
+  rw [hz, List.filter_eq_self]
+  intro q hq
+  obtain ⟨p, hp, rfl⟩ := List.mem_map.mp hq
+  have hne := rows_ne_nil h p hp
+  obtain ⟨a, t, hat⟩ := List.exists_cons_of_ne_nil hne
+  simp [keep, hat]
+
 end HydroVerif.C03
